@@ -8,7 +8,7 @@ import math
 import z3
 
 from .values import (SymV, Opaque, AbsVal, Obj, ClassRef, ExtClass, FuncRef, BoundMethod, ExtFunc, ModRef,
-                     PyList, PyDict, PySet, SymSeq, SymDict, SymColl, SDict, NpCell, NpArr, NpSlice, SliceV, NameK, TypeOfSym,
+                     PyList, PyDict, PySet, SymSeq, SymDict, SymColl, SDict, NestedSDict, NestedInner, NpCell, NpArr, NpSlice, SliceV, NameK, TypeOfSym,
                      EngineLimit, is_sym, ival, rval, bval, nameval, mk, kind_of, intern_name, NONE_ID, A1, A2,
                      ite_value, seq_concat)
 
@@ -342,6 +342,10 @@ def contains(I, coll, x, node=None):
         return coll.dom(x)
     if isinstance(coll, SDict):
         return z3.Select(coll.dom, *key_terms(x, coll.arity))
+    if isinstance(coll, NestedSDict):
+        return z3.Select(coll.dom1, nameval(x))
+    if isinstance(coll, NestedInner):
+        return z3.Select(z3.Select(coll.parent.dom2, coll.k1), nameval(x))
     if isinstance(coll, SymSeq):
         n = coll.concrete_len()
         if n is not None:
@@ -467,6 +471,17 @@ def getitem(I, obj, key, node=None):
         if not I.ctx.branch(z3.Select(obj.dom, *ks)):
             I.raise_("KeyError", node)
         return mk(z3.Select(obj.val, *ks), obj.vkind)
+    if isinstance(obj, NestedSDict):
+        k1 = nameval(key)
+        if not I.ctx.branch(z3.Select(obj.dom1, k1)):
+            I.raise_("KeyError", node)
+        return NestedInner(obj, k1)
+    if isinstance(obj, NestedInner):
+        k2 = nameval(key)
+        p = obj.parent
+        if not I.ctx.branch(z3.Select(z3.Select(p.dom2, obj.k1), k2)):
+            I.raise_("KeyError", node)
+        return PyDict({f: mk(z3.Select(z3.Select(arr, obj.k1), k2), kind) for f, (arr, kind) in p.cols.items()}, fresh=False)
     if isinstance(obj, NpArr):
         return np_getitem(I, obj, key, node)
     if isinstance(obj, NpSlice):
@@ -546,6 +561,28 @@ def setitem(I, obj, key, v, node=None):
         if not obj.fresh:
             I.ctx.writes.append(("dict", obj))
         obj.d[key] = v
+        return
+    if isinstance(obj, NestedSDict):
+        # parent[k1] = {}   (only an empty inner dict can be stored: that is how the nested maps are built)
+        if not (isinstance(v, PyDict) and not v.d and not v.sym):
+            raise EngineLimit("store of a non-empty dict into a symbolic nested dict")
+        if not obj.fresh:
+            I.ctx.writes.append(("nested", obj))
+        k1 = nameval(key)
+        obj.dom1 = z3.Store(obj.dom1, k1, z3.BoolVal(True))
+        obj.dom2 = z3.Store(obj.dom2, k1, z3.K(z3.IntSort(), z3.BoolVal(False)))
+        return
+    if isinstance(obj, NestedInner):
+        p = obj.parent
+        if not (isinstance(v, PyDict) and not v.sym and set(v.d.keys()) == set(p.cols.keys())):
+            raise EngineLimit("record with other fields stored into a symbolic nested dict")
+        if not p.fresh:
+            I.ctx.writes.append(("nested", p))
+        k1, k2 = obj.k1, nameval(key)
+        conv = {"bool": bval, "int": ival, "real": rval, "name": nameval}
+        p.dom2 = z3.Store(p.dom2, k1, z3.Store(z3.Select(p.dom2, k1), k2, z3.BoolVal(True)))
+        for f, (arr, kind) in list(p.cols.items()):
+            p.cols[f] = (z3.Store(arr, k1, z3.Store(z3.Select(arr, k1), k2, conv[kind](v.d[f]))), kind)
         return
     if isinstance(obj, SDict):
         ks = key_terms(key, obj.arity)
